@@ -32,12 +32,14 @@ def frame(min_rows=1, max_rows=12, nulls=False, index_kinds=("default",), odd_na
         n = draw(st.integers(min_rows, max_rows))
         cols = {}
         for name in NUM_COLS + ([ODD_NUM] if odd_names else []):
-            dt = draw(st.sampled_from(["float64", "float64", "int64"]))
+            dt = draw(st.sampled_from(["float64", "float64", "int64"] + (["Int64"] if nulls else [])))
             if dt == "int64":
                 vals = draw(st.lists(st.integers(-3, 9), min_size=n, max_size=n))
             else:
                 vals = draw(st.lists(st.sampled_from(NUM_VALUES), min_size=n, max_size=n))
-            if nulls and dt == "float64":
+            if dt == "Int64":
+                vals = draw(st.lists(st.integers(-3, 9), min_size=n, max_size=n))
+            if nulls and dt in ("float64", "Int64"):
                 mask = draw(st.lists(st.sampled_from([0, 0, 0, 1]), min_size=n, max_size=n))
                 vals = [None if m else v for v, m in zip(vals, mask)]
             cols[name] = {"dtype": dt, "values": vals}
@@ -89,6 +91,8 @@ def build(case, keep=None):
             data[name] = np.array([np.nan if v is None else float(v) for v in vals], dtype="float64")
         elif dt in ("int64", "int32", "int8", "uint8", "uint16", "float32", "int16", "uint32", "uint64"):
             data[name] = np.array(vals, dtype=dt)
+        elif dt == "Int64":
+            data[name] = pd.array(vals, dtype="Int64")
         elif dt == "bool":
             data[name] = np.array(vals, dtype=bool)
         elif dt == "object":
@@ -128,6 +132,7 @@ PY_FNS = {
     "exp": ("np.exp({0})", "np.exp({0})", 1),
     "sq": ("{{{0} ** 2}}", "{0} ** 2", 1),
     "neg": ("I(-{0})", "I(-{0})", 1),
+    "stack": ("np.stack([{0}, {1}], axis=1)", "np.stack([{0}, {1}], axis=1)", 2),
 }
 
 
@@ -155,6 +160,9 @@ def factor_src(f):
         return f["v"], f["v"]
     if k == "polyraw":
         e = f"poly({qname(f['col'])}, {f['deg']}, raw=True)"
+        return e, e
+    if k == "hashed":
+        e = f"hashed({qname(f['col'])}, levels={f['levels']})"
         return e, e
     raise ValueError(k)
 
@@ -219,6 +227,7 @@ def factors(cat_cols=CAT_COLS, num_cols=NUM_COLS, contrasts=True, py=True, liter
             )
         )
         opts.append(st.just({"k": "py", "fn": "mul", "cols": ["x", "y"]}))
+        opts.append(st.sampled_from([["x", "y"], ["y", "z"], ["z", "x"]]).map(lambda c: {"k": "py", "fn": "stack", "cols": c}))
     if polyraw:
         opts.append(st.tuples(st.sampled_from(num_cols), st.integers(1, 3)).map(lambda t: {"k": "polyraw", "col": t[0], "deg": t[1]}))
     return st.one_of(*opts)
